@@ -128,6 +128,29 @@ macro_rules! cast_ok {
 }
 cast_ok!(M0, M1, M2, M3, M4, M5);
 
+/// zero-sized, and its `CastFrom` is wrong too
+pub struct MWZ;
+impl Tag for MWZ {
+    fn tag(&self) -> u32 {
+        198
+    }
+    fn addr(&self) -> usize {
+        self as *const Self as usize
+    }
+    fn bump(&mut self) -> u64 {
+        9998
+    }
+}
+static OTHER_Z: MWZ = MWZ;
+static ANCHOR: u64 = 0;
+unsafe impl CastFrom<MWZ> for dyn Tag {
+    fn cast(_t: *mut MWZ) -> *mut Self {
+        // a different (valid, aligned) address: zero-sized values have addresses too
+        let _ = &OTHER_Z;
+        &ANCHOR as *const u64 as *mut MWZ
+    }
+}
+
 static OTHER: MW = MW(7);
 unsafe impl CastFrom<MW> for dyn Tag {
     fn cast(_t: *mut MW) -> *mut Self {
@@ -136,8 +159,12 @@ unsafe impl CastFrom<MW> for dyn Tag {
     }
 }
 
-pub const NM: usize = 7;
+pub const NM: usize = 8;
 const WRONG: u8 = 6;
+const WRONG_Z: u8 = 7;
+fn is_wrong(t: u8) -> bool {
+    t == WRONG || t == WRONG_Z
+}
 
 macro_rules! with_m {
     ($t:expr, $T:ident, $body:expr) => {
@@ -168,6 +195,10 @@ macro_rules! with_m {
             }
             6 => {
                 type $T = MW;
+                $body
+            }
+            7 => {
+                type $T = MWZ;
                 $body
             }
             _ => panic!("harness: meta type index out of range"),
@@ -213,9 +244,14 @@ impl Mk for MW {
         MW(1)
     }
 }
+impl Mk for MWZ {
+    fn mk() -> Self {
+        MWZ
+    }
+}
 
 fn tag_of(t: u8) -> u32 {
-    [100, 101, 102, 103, 104, 105, 199][t as usize]
+    [100, 101, 102, 103, 104, 105, 199, 198][t as usize]
 }
 
 fn mrid(t: u8, d: u8) -> ResourceId {
@@ -236,6 +272,8 @@ pub enum MetaOp {
     IterMut,
     /// iterate while a guard on (t, dynamic id 0) is held
     IterHolding { t: u8, excl: bool, iter_mut: bool },
+    /// the iterator through its adaptors: 0 = nth(k), 1 = skip(k), 2 = step_by(k + 1)
+    IterAdaptor { how: u8, k: u8, iter_mut: bool },
 }
 
 pub struct C17;
@@ -289,9 +327,13 @@ impl Prop for C17 {
         for _ in 0..n {
             // the wrong-cast type is rarer: it ends iterations early
             let t = if src.chance(2, 16) {
-                WRONG
+                if src.chance(8, 16) {
+                    WRONG
+                } else {
+                    WRONG_Z
+                }
             } else {
-                src.pick(NM - 1) as u8
+                src.pick(NM - 2) as u8
             };
             let d = if src.chance(3, 16) { 1 } else { 0 };
             let op = match src.pick(16) {
@@ -301,7 +343,18 @@ impl Prop for C17 {
                 8 => MetaOp::Get { t },
                 9 => MetaOp::GetMut { t },
                 10 => MetaOp::GetMutInWorld { t },
-                11 | 12 => MetaOp::Iter,
+                11 => MetaOp::Iter,
+                12 => {
+                    if src.chance(8, 16) {
+                        MetaOp::Iter
+                    } else {
+                        MetaOp::IterAdaptor {
+                            how: src.pick(3) as u8,
+                            k: src.pick(4) as u8,
+                            iter_mut: src.chance(6, 16),
+                        }
+                    }
+                }
                 13 => MetaOp::IterMut,
                 _ => MetaOp::IterHolding {
                     t,
@@ -339,7 +392,7 @@ impl Prop for C17 {
                             return (items, Some("borrow"));
                         }
                     }
-                    if t == WRONG {
+                    if is_wrong(t) {
                         return (items, Some("CastFrom"));
                     }
                     items.push((tag_of(t), stored_addr(world, t).unwrap_or(0)));
@@ -400,7 +453,7 @@ impl Prop for C17 {
                         })
                     });
                     let registered = order.contains(&t);
-                    match (registered, t == WRONG, r) {
+                    match (registered, is_wrong(t), r) {
                         (false, _, Ok(None)) => {}
                         (true, true, Err(m)) if m.contains("CastFrom") => {}
                         (true, false, Ok(Some((tag, addr, own)))) => {
@@ -429,7 +482,7 @@ impl Prop for C17 {
                             .map(|res| table.get_mut(res).map(|o| (o.tag(), o.addr())))
                     });
                     let registered = order.contains(&t);
-                    match (present.contains(&(t, 0)), registered, t == WRONG, r) {
+                    match (present.contains(&(t, 0)), registered, is_wrong(t), r) {
                         (false, _, _, Ok(None)) => {}
                         (true, false, _, Ok(Some(None))) => {}
                         (true, true, true, Err(m)) if m.contains("CastFrom") => {}
@@ -455,6 +508,59 @@ impl Prop for C17 {
                     let want = expect_pass(&order, &present, &world, mutable, None);
                     let got = pass(&table, &world, mutable);
                     compare(got, want)?;
+                }
+                MetaOp::IterAdaptor { how, k, iter_mut } => {
+                    iters += 1;
+                    let (full, err) = expect_pass(&order, &present, &world, iter_mut, None);
+                    // only decided when a plain pass would run to its end (no wrong-cast type on the way)
+                    if err.is_none() {
+                        let k = k as usize;
+                        let want: Vec<(u32, usize)> = match how % 3 {
+                            0 => full.get(k).cloned().into_iter().collect(),
+                            1 => full.iter().skip(k).cloned().collect(),
+                            _ => full.iter().step_by(k + 1).cloned().collect(),
+                        };
+                        let r = outcome(|| {
+                            let mut got = vec![];
+                            macro_rules! drive {
+                                ($it:expr) => {
+                                    match how % 3 {
+                                        0 => {
+                                            if let Some(x) = $it.nth(k) {
+                                                got.push((x.tag(), x.addr()));
+                                            }
+                                        }
+                                        1 => {
+                                            for x in $it.skip(k) {
+                                                got.push((x.tag(), x.addr()));
+                                            }
+                                        }
+                                        _ => {
+                                            for x in $it.step_by(k + 1) {
+                                                got.push((x.tag(), x.addr()));
+                                            }
+                                        }
+                                    }
+                                };
+                            }
+                            if iter_mut {
+                                drive!(table.iter_mut(&world));
+                            } else {
+                                drive!(table.iter(&world));
+                            }
+                            got
+                        });
+                        match r {
+                            Ok(got) if got == want => {}
+                            Ok(got) => {
+                                return Err(bad(format!(
+                                    "the iterator's adaptor yielded {:?}, the registered and present types in order give {:?}",
+                                    got, want
+                                )))
+                            }
+                            Err(e) => return Err(bad(format!("iteration panicked: {}", e))),
+                        }
+                    }
                 }
                 MetaOp::IterHolding { t, excl, iter_mut } => {
                     iters += 1;
